@@ -4019,7 +4019,12 @@ let p_unsubscribe_req =
 let p_disconnect_req =
   p_bind (p_opt p_N) (fun r ->
     p_bind (p_opt (p_list p_prop)) (fun ps ->
-      p_ret { dq_reason = r; dq_props = ps }))
+      p_ret { dq_reason =
+        (match r with
+         | Some _ -> r
+         | None -> (match ps with
+                    | Some _ -> Some N0
+                    | None -> r)); dq_props = ps }))
 
 type world = { w_sess : session; w_conn : bool; w_live : bool; w_event : 
                n; w_now : n; w_inq : (n * bytes) list; w_last_arrival : 
